@@ -64,6 +64,10 @@ type spec struct {
 	iter                      int
 	certpbe, keypbe           string
 	extra                     []string
+	csp                       string                  // -CSP value (attribute on the key bag)
+	arms                      []string                // switch arms / error exits this file is aimed at
+	patch                     func(file []byte, pw string) []byte // change inside the authSafe content, MAC recomputed
+	feat                      []string                // pairwise features (filled in for the pairwise set)
 }
 
 func main() {
@@ -74,13 +78,12 @@ func main() {
 		"rsa2048": {"genpkey", "-algorithm", "RSA", "-pkeyopt", "rsa_keygen_bits:2048"},
 		"p256":    {"genpkey", "-algorithm", "EC", "-pkeyopt", "ec_paramgen_curve:P-256"},
 		"p384":    {"genpkey", "-algorithm", "EC", "-pkeyopt", "ec_paramgen_curve:P-384"},
+		"ed25519": {"genpkey", "-algorithm", "ED25519"},
 	}
 	for name, args := range keys {
 		run(work, append(args, "-out", name+".key.pem")...)
 		run(work, "req", "-x509", "-new", "-key", name+".key.pem", "-subj", "/CN=c21 "+name+"/O=verif", "-days", "36500", "-out", name+".crt.pem")
 	}
-	long40 := strings.Repeat("0123456789", 4)
-	cjk40 := strings.Repeat("密码测试口令鍵パス암호", 4)[:0] + strings.Repeat("密码测试口令鍵パス", 4)
 	rc2, des3 := "PBE-SHA1-RC2-40", "PBE-SHA1-3DES"
 	var specs []spec
 	add := func(s spec) {
@@ -96,17 +99,82 @@ func main() {
 		s.id = fmt.Sprintf("f%02d-%s", len(specs), s.key)
 		specs = append(specs, s)
 	}
-	pws := []string{"", "a", "secret", "pässwörd", "密码测试", "pw-密-é ÿĀ", long40, cjk40, "p w!\"#$%&'()*+,-./:;<=>?@[\\]^_`{|}~", "�ÿĀ߿ࠀ￿", "Пароль", "סיסמה", "abé",
-		strings.Repeat("x", 31), strings.Repeat("密", 31), strings.Repeat("0123456789abcdef", 4)[:63], strings.Repeat("é", 63), strings.Repeat("k", 32), strings.Repeat("k", 30)}
-	iters := []int{1, 2, 50, 1000, 2048, 4096, 17, 3}
-	keyNames := []string{"rsa1024", "p256", "rsa2048", "p256", "rsa1024", "p384"}
-	fnames := []string{"friendly", "名前 ключ", "", "k", "Ünïcödé name", "0123456789012345678901234567890123456789"}
-	n := 0
-	for _, pw := range pws {
-		for k := 0; k < reps(pw); k++ {
-			add(spec{key: keyNames[n%len(keyNames)], pw: pw, fname: fnames[n%len(fnames)], iter: iters[n%len(iters)]})
-			n++
+	// pairwise set: every pair of feature values from different dimensions occurs in some file (greedy cover)
+	type dim struct {
+		name string
+		vals []string
+	}
+	dims := []dim{
+		{"pw", []string{"empty", "ascii", "latin", "cjk", "len31", "len63", "punct"}},
+		{"key", []string{"rsa1024", "rsa2048", "p256", "p384"}},
+		{"certpbe", []string{"rc2", "3des", "none"}},
+		{"keypbe", []string{"3des", "rc2"}},
+		{"iter", []string{"1", "3", "2048", "nomaciter"}},
+		{"fname", []string{"none", "ascii", "bmp"}},
+	}
+	pwOf := map[string]string{"empty": "", "ascii": "secret", "latin": "pässwörd ÿĀ", "cjk": "密码测试パス", "len31": strings.Repeat("x", 30) + "é",
+		"len63": strings.Repeat("0123456789abcdef", 4)[:62] + "密", "punct": "p w!\"#$%&'()*+,-./:;<=>?@[\\]^_`{|}~"}
+	pbeOf := map[string]string{"rc2": rc2, "3des": des3, "none": "NONE"}
+	fnameOf := map[string]string{"none": "", "ascii": "friendly", "bmp": "名前 ключ Ünï"}
+	covered := map[string]bool{}
+	pairKey := func(a, va, b, vb string) string { return a + ":" + va + "+" + b + ":" + vb }
+	total := 0
+	for i := range dims {
+		for j := i + 1; j < len(dims); j++ {
+			total += len(dims[i].vals) * len(dims[j].vals)
 		}
+	}
+	seed := uint64(20260922)
+	rnd := func(n int) int {
+		seed += 0x9e3779b97f4a7c15
+		z := seed
+		z = (z ^ (z >> 30)) * 0xbf58476d1ce4e5b9
+		z = (z ^ (z >> 27)) * 0x94d049bb133111eb
+		return int((z ^ (z >> 31)) % uint64(n))
+	}
+	for len(covered) < total {
+		var best []int
+		bestNew := -1
+		for c := 0; c < 60; c++ {
+			pick := make([]int, len(dims))
+			for d := range dims {
+				pick[d] = rnd(len(dims[d].vals))
+			}
+			nw := 0
+			for i := range dims {
+				for j := i + 1; j < len(dims); j++ {
+					if !covered[pairKey(dims[i].name, dims[i].vals[pick[i]], dims[j].name, dims[j].vals[pick[j]])] {
+						nw++
+					}
+				}
+			}
+			if nw > bestNew {
+				best, bestNew = pick, nw
+			}
+		}
+		v := func(d int) string { return dims[d].vals[best[d]] }
+		var feat []string
+		for d := range dims {
+			feat = append(feat, dims[d].name+":"+v(d))
+		}
+		for i := range dims {
+			for j := i + 1; j < len(dims); j++ {
+				covered[pairKey(dims[i].name, v(i), dims[j].name, v(j))] = true
+			}
+		}
+		sp := spec{key: v(1), pw: pwOf[v(0)], fname: fnameOf[v(5)], certpbe: pbeOf[v(2)], keypbe: pbeOf[v(3)], feat: feat}
+		switch v(4) {
+		case "nomaciter":
+			sp.iter, sp.extra = 50, []string{"-nomaciter"}
+		default:
+			sp.iter, _ = strconv.Atoi(v(4))
+		}
+		add(sp)
+	}
+	// passwords around the 64-byte block boundary of fillWithRepeats (BMP + terminator = 62, 64, 66, 128 bytes), long ones, odd scripts
+	for i, pw := range []string{strings.Repeat("x", 31), strings.Repeat("密", 31), strings.Repeat("é", 63), strings.Repeat("k", 32), strings.Repeat("k", 30),
+		strings.Repeat("0123456789", 4), strings.Repeat("密码测试口令鍵パス", 4), "�ÿĀ߿ࠀ￿", "Пароль", "סיסמה", "a"} {
+		add(spec{key: []string{"rsa1024", "p256", "p384"}[i%3], pw: pw, fname: []string{"k", "", "0123456789012345678901234567890123456789"}[i%3], iter: []int{4096, 17, 1000, 2}[i%4]})
 	}
 	// other bag algorithms the reader supports, the default MAC iteration count (field omitted), and shapes
 	add(spec{key: "rsa1024", pw: "both3des", fname: "x", iter: 20, certpbe: des3})
@@ -122,6 +190,57 @@ func main() {
 	// (what Windows / NSS / older tools write): opens only through the empty-password retry of getSafeContents
 	add(spec{key: "rsa1024", pw: "", fname: "nullpw", iter: 7, certpbe: des3, shape: "nullpw"})
 	add(spec{key: "p256", pw: "", fname: "", iter: 1, certpbe: des3, shape: "nullpw"})
+	// every attribute the package knows, and one it does not
+	add(spec{key: "rsa1024", pw: "csp", fname: "with csp", iter: 3, csp: "Microsoft Enhanced Cryptographic Provider v1.0", arms: []string{"attr:csp", "attr:friendlyName", "attr:localKeyId"}})
+	add(spec{key: "rsa1024", pw: "keyex", fname: "ke", iter: 3, extra: []string{"-keyex"}, arms: []string{"attr:unknown"}})
+	// bag and content-type arms
+	add(spec{key: "p256", pw: "plaincert", fname: "pc", iter: 3, certpbe: "NONE", arms: []string{"ci:data-only", "bag:cert", "bag:key8"}})
+	add(spec{key: "rsa1024", pw: "plainkey", fname: "pk", iter: 3, keypbe: "NONE", shape: "other", arms: []string{"bag:unknown"}})
+	add(spec{key: "ed25519", pw: "ed", fname: "ed", iter: 3, shape: "ed", arms: []string{"keytype:other"}})
+	add(spec{key: "rsa1024", pw: "rsa", fname: "", iter: 2, arms: []string{"keytype:rsa", "pbe:rc2", "pbe:3des", "ci:encrypted"}})
+	add(spec{key: "p384", pw: "ec", fname: "", iter: 2, arms: []string{"keytype:ecdsa"}})
+	// NotImplementedError exits
+	add(spec{key: "p256", pw: "rc2-128", fname: "", iter: 3, certpbe: "PBE-SHA1-RC2-128", shape: "other", arms: []string{"pbe:unknown-cert"}})
+	add(spec{key: "p256", pw: "rc4", fname: "", iter: 3, keypbe: "PBE-SHA1-RC4-128", shape: "other", arms: []string{"pbe:unknown-key"}})
+	add(spec{key: "p256", pw: "2des", fname: "", iter: 3, certpbe: "PBE-SHA1-2DES", shape: "other", arms: []string{"pbe:unknown-cert"}})
+	add(spec{key: "rsa1024", pw: "nokeys", fname: "", iter: 3, shape: "other", extra: []string{"-nokeys"}, arms: []string{"safe-count"}})
+	add(spec{key: "rsa1024", pw: "nocerts", fname: "", iter: 3, shape: "other", extra: []string{"-nocerts"}, arms: []string{"safe-count"}})
+	add(spec{key: "p256", pw: "iter-too-high", fname: "", iter: 1048577, shape: "other", arms: []string{"mac-iterations"}})
+	add(spec{key: "p256", pw: "bag-iter-too-high", fname: "", iter: 1048577, shape: "other", extra: []string{"-nomaciter"}, arms: []string{"pbe-iterations"}})
+	// arms only reachable with content OpenSSL does not write: patched inside the MAC-covered content, MAC recomputed
+	sub := func(old, new string) func([]byte, string) []byte {
+		return func(f []byte, pw string) []byte {
+			return patchContent(f, pw, func(c []byte) []byte {
+				o, n := unhex(old), unhex(new)
+				if bytes.Count(c, o) < 1 {
+					panic("patch pattern not found: " + old)
+				}
+				return bytes.Replace(c, o, n, 1)
+			})
+		}
+	}
+	add(spec{key: "rsa1024", pw: "ci-enveloped", iter: 2, shape: "other", patch: sub("06092a864886f70d010706", "06092a864886f70d010703"), arms: []string{"ci:unknown"}})
+	add(spec{key: "rsa1024", pw: "ed-version", iter: 2, shape: "other", patch: func(f []byte, pw string) []byte {
+		return patchContent(f, pw, func(c []byte) []byte {
+			at := bytes.Index(c, unhex("06092a864886f70d010706"))
+			v := bytes.Index(c[at:], unhex("020100"))
+			c[at+v+2] = 1
+			return c
+		})
+	}, arms: []string{"encryptedData-version"}})
+	add(spec{key: "p256", pw: "bag-type", iter: 2, shape: "other", patch: sub("060b2a864886f70d010c0a0102", "060b2a864886f70d010c0a0105"), arms: []string{"bag:unknown"}})
+	add(spec{key: "p256", pw: "cert-type", iter: 2, certpbe: "NONE", shape: "other", patch: sub("060a2a864886f70d01091601", "060a2a864886f70d01091602"), arms: []string{"certtype:other"}})
+	add(spec{key: "rsa1024", pw: "bad-padding", iter: 2, shape: "other", patch: func(f []byte, pw string) []byte {
+		return patchContent(f, pw, func(c []byte) []byte { // last byte of the encrypted certificate safe
+			at := bytes.Index(c, unhex("06092a864886f70d010706"))
+			e := bytes.Index(c[at:], []byte{0x80, 0x82})
+			n := int(c[at+e+2])<<8 | int(c[at+e+3])
+			c[at+e+4+n-1] ^= 0x55
+			return c
+		})
+	}, arms: []string{"ErrDecryption"}})
+	add(spec{key: "rsa1024", pw: "version4", iter: 2, shape: "other", patch: func(f []byte, pw string) []byte { f[6] = 4; return f }, arms: []string{"pfx-version"}})
+	add(spec{key: "rsa1024", pw: "signed-data", iter: 2, shape: "other", patch: func(f []byte, pw string) []byte { f[21] = 2; return f }, arms: []string{"authsafe-type"}})
 
 	var out strings.Builder
 	out.WriteString("# generated by cmd/c21/mkpfx.go with " + strings.TrimSpace(version()) + " — do not edit\n")
@@ -138,6 +257,9 @@ func main() {
 		if s.fname != "" {
 			args = append(args, "-name", s.fname)
 		}
+		if s.csp != "" {
+			args = append(args, "-CSP", s.csp)
+		}
 		args = append(args, s.extra...)
 		run(work, args...)
 		file, err := os.ReadFile(pfx)
@@ -145,6 +267,9 @@ func main() {
 		if s.shape == "nullpw" {
 			file = rekeyToNullPassword(file)
 			s.shape = "std"
+		}
+		if s.patch != nil {
+			file = s.patch(file, s.pw)
 		}
 		kp, err := os.ReadFile(filepath.Join(work, s.key+".key.pem"))
 		must(err)
@@ -163,12 +288,21 @@ func main() {
 			kind = "ec"
 			kder, err = x509.MarshalECPrivateKey(k)
 			must(err)
-		default:
-			panic("key type")
+		default: // Ed25519: Decode returns it, ToPEM cannot write it; digest of the PKCS#8 form
+			kind = "other"
+			kder, err = x509.MarshalPKCS8PrivateKey(k8)
+			must(err)
 		}
 		ks, cs, lk := sha256.Sum256(kder), sha256.Sum256(cb.Bytes), sha1.Sum(cb.Bytes)
-		fmt.Fprintf(&out, "pfx id=%s pw=%s kind=%s key=%s cert=%s lkid=%s fname=%s shape=%s file=%s\n", s.id, runes(s.pw), kind,
-			hex.EncodeToString(ks[:]), hex.EncodeToString(cs[:]), hex.EncodeToString(lk[:]), runes(s.fname), s.shape, hex.EncodeToString(file))
+		join := func(l []string) string {
+			if len(l) == 0 {
+				return "-"
+			}
+			return strings.Join(l, ",")
+		}
+		fmt.Fprintf(&out, "pfx id=%s pw=%s kind=%s key=%s cert=%s lkid=%s fname=%s csp=%s shape=%s feat=%s arms=%s file=%s\n", s.id, runes(s.pw), kind,
+			hex.EncodeToString(ks[:]), hex.EncodeToString(cs[:]), hex.EncodeToString(lk[:]), runes(s.fname), runes(s.csp), s.shape,
+			join(s.feat), join(s.arms), hex.EncodeToString(file))
 	}
 	must(os.WriteFile("cmd/c21/pfx_corpus.txt", []byte(out.String()), 0o644))
 	fmt.Printf("wrote %d files\n", len(specs))
@@ -247,6 +381,57 @@ func recrypt(alg pkix.AlgorithmIdentifier, ct, oldPw, newPw []byte) []byte {
 		return out
 	}
 	return crypt(newPw, false, crypt(oldPw, true, ct))
+}
+
+func unhex(h string) []byte {
+	b, err := hex.DecodeString(h)
+	must(err)
+	return b
+}
+
+func bmp(pw string) []byte {
+	var b []byte
+	for _, r := range pw {
+		b = append(b, byte(r>>8), byte(r))
+	}
+	return append(b, 0, 0)
+}
+
+// patchContent applies f (length-preserving) to the authSafe content of an OpenSSL-written file and recomputes
+// the HMAC-SHA1 MAC for password pw, so that the change is reached behind the MAC check.
+func patchContent(file []byte, pw string, f func([]byte) []byte) []byte {
+	type contentInfo struct {
+		ContentType asn1.ObjectIdentifier
+		Content     asn1.RawValue `asn1:"tag:0,explicit,optional"`
+	}
+	type digestInfo struct {
+		Algorithm pkix.AlgorithmIdentifier
+		Digest    []byte
+	}
+	type macData struct {
+		Mac        digestInfo
+		MacSalt    []byte
+		Iterations int `asn1:"optional,default:1"`
+	}
+	type pfxPdu struct {
+		Version  int
+		AuthSafe contentInfo
+		MacData  macData `asn1:"optional"`
+	}
+	var pfx pfxPdu
+	_, err := asn1.Unmarshal(file, &pfx)
+	must(err)
+	var content []byte
+	_, err = asn1.Unmarshal(pfx.AuthSafe.Content.Bytes, &content)
+	must(err)
+	newContent := f(append([]byte{}, content...))
+	if len(newContent) != len(content) || bytes.Count(file, content) != 1 || bytes.Count(file, pfx.MacData.Mac.Digest) != 1 {
+		panic("patchContent: cannot patch")
+	}
+	m := hmac.New(sha1.New, kdfB(pfx.MacData.MacSalt, bmp(pw), pfx.MacData.Iterations, 3, 20))
+	m.Write(newContent)
+	out := bytes.Replace(file, content, newContent, 1)
+	return bytes.Replace(out, pfx.MacData.Mac.Digest, m.Sum(nil), 1)
 }
 
 func rekeyToNullPassword(file []byte) []byte {
